@@ -454,7 +454,7 @@ proof fn lemma_link_all<V: ToUniqueIndex>(a: VectorMap<V, V>, b: VectorMap<V, V>
         let ghost s0 = *self;
         let ghost x1 = v1.index_spec() as int;
         let ghost x2 = v2.index_spec() as int;
-//@proof after "self.find(v2);"
+//@proof after "let v2 = self.find(v2);"
         let ghost s2 = *self;
         let ghost ra = v1.index_spec() as int;
         let ghost rb = v2.index_spec() as int;
